@@ -274,6 +274,7 @@ package fun
 //@ func (Operation).Launch
 //@   props C15
 //@   option noframe
+//@   modifies chans
 //@   requires wf != nil
 //@   ensures waiter: closureof(result, "WaitChannel$1") && fresh(closurevar(result, "ch"))
 
